@@ -56,11 +56,11 @@ def main():
     rc1, out1 = sh('cargo test --offline --test demo 2>&1 | tail -15', cwd=wt, env=env)
     fails_with = 'test result: FAILED' in out1 or ('panicked' in out1 and 'test result: ok' not in out1)
     meta['demo_with_change'] = 'FAIL' if fails_with else ('pass' if 'test result: ok' in out1 else 'ERROR: ' + out1[-300:])
-    sh('git stash push -- src', cwd=wt)
+    sh('git apply -R MUTANT.patch', cwd=wt)
     rc2, out2 = sh('cargo test --offline --test demo 2>&1 | tail -8', cwd=wt, env=env)
     passes_without = 'test result: ok' in out2
     meta['demo_without_change'] = 'pass' if passes_without else 'FAIL: ' + out2[-300:]
-    sh('git stash pop', cwd=wt)
+    sh('git apply MUTANT.patch', cwd=wt)
     meta['confirmed'] = bool(ok_tests and fails_with and passes_without)
     # 3. run the checks against /repo with the patch applied
     rc, out = sh('git -C /repo status --porcelain')
